@@ -218,9 +218,16 @@ def s2_roundtrip(ctx):
         for f in (P.lookup(cn, '_from_dict'), fd):
             if f is None:
                 continue
+            # names bound to the class looked up in the registry
+            # (surface_class = cls._registry.get(surface_type, cls))
+            ctor_names = {'cls', cn}
+            for n in ast.walk(f.node):
+                if isinstance(n, ast.Assign) and isinstance(
+                        n.targets[0], ast.Name) and \
+                        '_registry' in unparse(n.value):
+                    ctor_names.add(n.targets[0].id)
             calls = [c for c in ast.walk(f.node) if isinstance(c, ast.Call) and
-                     isinstance(c.func, ast.Name) and c.func.id in ('cls',
-                                                                     cn)]
+                     isinstance(c.func, ast.Name) and c.func.id in ctor_names]
             if not calls:
                 continue
             call = calls[-1]
